@@ -138,6 +138,9 @@ func (r *Rec) record(sub string, c interface{}, o Outcome) {
 	if _, ok := r.hashes[h]; ok {
 		return
 	}
+	if fuzzWorker() && len(r.hashes) >= fuzzHashCap {
+		return // distinctness is a lower bound in a native fuzz worker (bounded memory)
+	}
 	r.hashes[h] = struct{}{}
 	n := int64(len(r.hashes))
 	if n == r.sampleAt && len(r.samples) < 12 {
@@ -529,6 +532,66 @@ func Enumerate[C any](t *testing.T, r *Rec, sub string, enumerate func(yield fun
 	r.mu.Unlock()
 }
 
+// ---- native fuzzing (go test -fuzz; thorough tier only) ---------------------------------------
+
+const fuzzHashCap = 400000
+
+func fuzzWorker() bool {
+	f := flag.Lookup("test.fuzzworker")
+	return f != nil && f.Value.String() == "true"
+}
+
+var fuzzSinceFlush int64
+
+// FuzzOne evaluates one input handed over by the native fuzzer. Inside a fuzz worker a failure is only reported to the
+// coordinator (which minimises it and saves the input); when the saved input is re-run outside fuzzing mode (the driver does
+// that for every saved input) the failure is written as a replay file and reported like any other violation.
+func FuzzOne[C any](t *testing.T, r *Rec, sub string, c C, prop func(C) Outcome) {
+	o := guard(prop, c)
+	if o.Err != nil {
+		if !fuzzWorker() {
+			p := r.writeReplay(sub, c, o.Err.Error())
+			r.violation(sub, o.Err.Error(), p)
+		}
+		t.Fatalf("%v", o.Err)
+	}
+	r.record(sub, c, o)
+	if fuzzWorker() {
+		// a worker is stopped from outside when the campaign ends: leave the counters behind regularly
+		r.mu.Lock()
+		fuzzSinceFlush++
+		due := fuzzSinceFlush >= 50000
+		if due {
+			fuzzSinceFlush = 0
+		}
+		r.mu.Unlock()
+		if due {
+			Flush()
+		}
+	}
+}
+
+// ReplayOnly registers a sub-property whose cases are produced elsewhere (the native fuzzer): in a test run it only runs
+// the replay file asked for (VERIF_REPLAY) or the committed replays of that sub-property.
+func ReplayOnly[C any](t *testing.T, r *Rec, sub string, prop func(C) Outcome) {
+	t.Helper()
+	if !wantSub(sub) {
+		return
+	}
+	if replayMode(t, r, sub, prop) {
+		return
+	}
+	if !r.replays(t, sub, func(raw json.RawMessage) (Outcome, error) {
+		var c C
+		if err := json.Unmarshal(raw, &c); err != nil {
+			return Outcome{}, err
+		}
+		return guard(prop, c), nil
+	}) {
+		t.Fail()
+	}
+}
+
 // ---- flushing ------------------------------------------------------------------------------
 
 type shardFile struct {
@@ -556,6 +619,9 @@ func Flush() {
 	base := os.Getenv("VERIF_EV_OUT")
 	if base == "" {
 		return
+	}
+	if fuzzWorker() {
+		base = filepath.Join(filepath.Dir(base), fmt.Sprintf("fz-%d", os.Getpid()))
 	}
 	recsMu.Lock()
 	defer recsMu.Unlock()
